@@ -44,6 +44,7 @@ from .utils import is_https_request
 class ManifestContext:
     baseURL: str | None = None
     cgi_params: CgiParameterCollection
+    has_timing: bool
     locationURL: str
     manifest: DashManifest | None
     mediaDuration: int
@@ -97,6 +98,7 @@ class ManifestContext:
         if self.timing_ref is not None:
             timing = DashTiming(self.now, self.timing_ref, options)
             self.mediaDuration = self.timing_ref.media_duration_timedelta().total_seconds()
+        self.has_timing = multi_period is not None or timing is not None
 
         if multi_period:
             if options.mode == 'live':
@@ -126,6 +128,18 @@ class ManifestContext:
             if self.cgi_params.patch:
                 patch_loc += objects.dict_to_cgi_params(self.cgi_params.patch)
             self.patch = PatchLocation(location=patch_loc, ttl=ttl)
+
+    def has_media(self) -> bool:
+        """
+        True if a manifest can be produced: the stream has a timing reference
+        and every Period has at least one non-empty AdaptationSet
+        """
+        if not self.has_timing or not self.periods:
+            return False
+        for period in self.periods:
+            if not period.adaptationSets:
+                return False
+        return True
 
     def to_dict(self,
                 exclude: AbstractSet[str] | None = None,
@@ -275,7 +289,8 @@ class ManifestContext:
                         continue
                     adp_set.representations.append(mf.representation)
                 adp_set.compute_av_values()
-                period.adaptationSets.append(adp_set)
+                if adp_set.representations:
+                    period.adaptationSets.append(adp_set)
                 if adp_set.content_type == 'video':
                     video = adp_set
                 elif adp_set.content_type == 'audio':
@@ -317,9 +332,9 @@ class ManifestContext:
             else:
                 period.event_streams.append(ev_stream)
         if db_period is None:
-            period.adaptationSets.append(video)
-            period.adaptationSets += audio_adps
-            period.adaptationSets += text_adps
+            for adp in [video] + audio_adps + text_adps:
+                if adp.representations:
+                    period.adaptationSets.append(adp)
         if db_period:
             base_url: str = flask.url_for(
                 "mps-base-url", mode=opts.mode, mps_name=db_period.parent.name,
